@@ -1390,6 +1390,7 @@ func (enc *VP8Encoder) EncodeFrame() ([]byte, error) {
 		return nil, err
 	}
 	enc.computeStats(frameData)
+	verifFrameDone(enc)
 	return frameData, nil
 }
 
